@@ -15,8 +15,8 @@ use cipher::zeroize::ZeroizeOnDrop;
 
 #[inline]
 fn weak_key_test2(key: &[u8; 16]) -> Result<(), WeakKeyError> {
-    let k1 = u64::from_ne_bytes(key[..8].try_into().unwrap());
-    let k2 = u64::from_ne_bytes(key[8..16].try_into().unwrap());
+    let k1 = u64::from_ne_bytes(key[..8].try_into().unwrap()) & super::PARITY_MASK;
+    let k2 = u64::from_ne_bytes(key[8..16].try_into().unwrap()) & super::PARITY_MASK;
 
     let mut is_weak = 0u8;
     is_weak |= super::weak_key_test(k1);
@@ -31,9 +31,9 @@ fn weak_key_test2(key: &[u8; 16]) -> Result<(), WeakKeyError> {
 
 #[inline]
 fn weak_key_test3(key: &[u8; 24]) -> Result<(), WeakKeyError> {
-    let k1 = u64::from_ne_bytes(key[..8].try_into().unwrap());
-    let k2 = u64::from_ne_bytes(key[8..16].try_into().unwrap());
-    let k3 = u64::from_ne_bytes(key[16..24].try_into().unwrap());
+    let k1 = u64::from_ne_bytes(key[..8].try_into().unwrap()) & super::PARITY_MASK;
+    let k2 = u64::from_ne_bytes(key[8..16].try_into().unwrap()) & super::PARITY_MASK;
+    let k3 = u64::from_ne_bytes(key[16..24].try_into().unwrap()) & super::PARITY_MASK;
 
     let mut is_weak = 0u8;
     is_weak |= super::weak_key_test(k1);
